@@ -1,7 +1,7 @@
 (** C07 — symbolic machine state equals sequential execution, incl. overlapping memory.  Property theorems only.
     Proved on the model (EvalAbs.v, tied to eval_abs.eval_instr / the pool by exact-state correspondence over store/load
-    histories): (1) all assignments of one instruction with register destinations evaluate their sources in the state the
-    instruction started in, one after the other, and only then bind them in order; (2) the pool as a dictionary: a cell read
+    histories): (1) all assignments of one instruction — register AND memory destinations, sources and destination addresses —
+    are evaluated in the state the instruction started in, one after the other, and only then bound in order; (2) the pool as a dictionary: a cell read
     back at the address and width it was written with returns the written value, cells at other addresses and all registers
     are untouched, and register writes leave memory untouched; (3) with C06: in a register-only state every value so computed
     denotes, in every concrete state, the value of its source under the substituted pre-state.
@@ -18,7 +18,7 @@
     composition over instruction sequences — decided by the exhaustive (<= 2 stores + 1 load) and random history correspondence and
     the instruction-sequence runs of harness/p_c07.py. *)
 From Coq Require Import ZArith List Bool String.
-From Mx Require Import Expr Simp SimpProofs EvalAbs EvalAbsProofs MachineProofs SubMem ReadPaths.
+From Mx Require Import Expr Simp SimpProofs EvalAbs EvalAbsProofs MachineProofs SubMem ReadPaths PreState.
 Import ListNotations.
 Open Scope Z_scope.
 
@@ -53,6 +53,18 @@ Theorem C07_source_value_in_pre_state : forall (Sig : string -> Z * bool * bool)
   forall rho mu iota, eval rho mu iota v = eval (rho' s rho mu iota) mu iota src.
 Proof. intros Sig s Hm Hp fuel src v W H. apply (eval_expr_is_substitution Sig s Hm Hp fuel src v W H). Qed.
 Print Assumptions C07_source_value_in_pre_state.
+
+(** the same with memory destinations: every source AND every destination address is evaluated in the state the instruction started in *)
+Theorem C07_all_assignments_read_pre_state : forall fuel s affs, forallb aff_ok affs = true ->
+  get_instr_mod fuel s affs = (dox kvs <- mapX (eval_aff fuel s) affs; okx (fold_left (fun out kv => adict_set out (fst kv) (snd kv)) kvs [])).
+Proof. exact get_instr_mod_reads_pre_state. Qed.
+Print Assumptions C07_all_assignments_read_pre_state.
+(** eax := 8 ; [eax] := ebx  in one instruction, started with eax = 4096: the store goes to 4096, not to 8 *)
+Example C07_store_address_uses_pre_state :
+  let eax := EId "eax" 32 true false in let ebx := EId "ebx" 32 true false in
+  get_instr_mod 20 (Pool [(eax, EInt false 32 4096)] []) [EAff eax (EInt false 32 8); EAff (EMem eax 32 None) ebx]
+  = inl (Ok [(eax, EInt false 32 8); (EMem (EInt false 32 4096) 32 None, ebx)]).
+Proof. vm_compute. reflexivity. Qed.
 
 (** overlapping writes: what remains of the old cell *)
 Theorem C07_remaining_pieces_are_the_geometry : forall fuel s aaddr aw sg cellv baddr bw pieces,
